@@ -205,6 +205,9 @@ class Portfolio(IncrementalTrackingSolver):
         assert self._ctrl_pipe is not None
         self._ctrl_pipe.send(("get_value", formula))
         res = self._ctrl_pipe.recv()
+        if isinstance(res, Exception):
+            # Raised by the solver while computing the value
+            raise res
         return self.environment.formula_manager.normalize(res)
 
     def get_model(self) -> Model:
@@ -218,6 +221,9 @@ class Portfolio(IncrementalTrackingSolver):
         # Contextualize the result within the calling process
         _normalize = self.environment.formula_manager.normalize
         model_list = self._ctrl_pipe.recv()
+        if isinstance(model_list, Exception):
+            # Raised by the solver while building the model
+            raise model_list
         model = {}
         for k,v in model_list:
             _k, _v = _normalize(k), _normalize(v)
@@ -288,10 +294,18 @@ def _run_solver(idx, solver, logic, options, formula, signaling_queue, ctrl_pipe
             elif cmd == "get_model":
                 # MG: Can we pickle the EagerModel directly?
                 # Note: contextualization happens on the receiver side
-                model = list(s.get_model())
+                try:
+                    model = list(s.get_model())
+                except Exception as ex:
+                    # The caller gets the exception, the solver goes on
+                    model = ex
                 ctrl_pipe.send(model)
             elif cmd == "get_value":
-                args = get_env().formula_manager.normalize(args)
-                ctrl_pipe.send(s.get_value(args))
+                try:
+                    args = get_env().formula_manager.normalize(args)
+                    value = s.get_value(args)
+                except Exception as ex:
+                    value = ex
+                ctrl_pipe.send(value)
             else:
                 raise ValueError("Unknown command '%s'" % cmd)
